@@ -42,6 +42,11 @@ Ltac sim_go me :=
     | |- sim _ (as_byte _) _ => apply (sim_as_byte me)
     | |- sim _ (set_ce _ _) _ => apply (sim_set_ce me)
     | |- sim _ (put _) _ => apply (sim_put me)
+    | |- sim _ (sleep _ _) _ => apply (sim_sleep me)
+    | |- sim _ (listen_delay _ _) _ => apply (sim_listen_delay me)
+    | |- sim _ (bind (now _) _) _ =>
+      apply (simR_bind me (fun _ _ => True) eq);
+      [apply (simR_now me) | intros ? ? _; match goal with |- simR _ eq ?x ?y => change (sim me x y) end]
     | |- sim _ (bind get _) _ =>
       apply (sim_bind_get me);
       let d := fresh "d" in let d' := fresh "d'" in let H := fresh "H" in
